@@ -12,6 +12,7 @@
 package main
 
 import (
+	"flag"
 	"fmt"
 	"os"
 	"path/filepath"
@@ -194,6 +195,7 @@ func (c *mapperImpl) Close() {
 }
 
 func main() {
+	flag.Set("logtostderr", "true") // glog of the code under test: no files in /tmp
 	o := tr.ParseFlags()
 	w := tr.NewWriter(o.Out)
 	defer w.Close()
